@@ -35,7 +35,9 @@ pub fn gen(tier: &str, seed: u64) -> Gen {
     let mut rng = Rng::new(seed);
     let mut cases = Vec::new();
     let thorough = tier == "thorough";
-    let limits: Vec<i64> = if thorough { (1..=200).collect() } else { vec![1, 2, 3, 5, 8, 13, 21, 34, 50, 200] };
+    // (the model's run time grows with the cube of the depth: the thorough tier takes every limit
+    // up to 64 and a sample above)
+    let limits: Vec<i64> = if thorough { (1..=64).chain(vec![80, 100, 128, 150, 200].into_iter()).collect() } else { vec![1, 2, 3, 5, 8, 13, 21, 34, 50, 200] };
     for &n in &limits {
         for kind in 0..7i64 {
             // the quick tier visits the largest limit with two constructs only (the model run is
